@@ -38,7 +38,7 @@ _CL = {}
 
 def cfg_list(tier):
     if tier not in _CL:
-        from .c14 import cfgs
+        from .c14 import cfgs2 as cfgs
         from ..ast import C, L
         extra = [("ExactlyOne(a,b) [explicit]", C('Cfg', "cfg", [C('ExactlyOne', "R1", [L("a"), L("b")])])),
                  ("ExactlyOne(a,b,c) & a->x [generated]", C('Cfg', "cfg", [C('ExactlyOne', None, [L("a"), L("b"), L("c")]), C('Imply', None, [L("a"), L("x")])])),
